@@ -68,6 +68,7 @@ fn stream_plan(p: &Project, rng: &mut Rng) -> Value {
 
 pub fn plan(projects: &[Project], opts: &Opts) -> Vec<Value> {
     let thorough = opts.tier == "thorough";
+    let variant = !crate::corpus::VARIANT.is_empty();
     let mut cases = vec![];
     // ---- baselines: fault-free, with and without decoys
     for p in projects {
@@ -103,7 +104,7 @@ pub fn plan(projects: &[Project], opts: &Opts) -> Vec<Value> {
         cases.push(json!({"kind": "read", "project": p.id, "faults": [{"op": "locales_dir_missing", "file": ""}], "decoys": false, "codegen": true}));
     }
     // ---- byte-level faults
-    if thorough {
+    if thorough && !variant {
         // exhaustive offsets: every corpus project and the first 60 generated ones
         for p in projects.iter().filter(|p| !p.id.starts_with("gen/") || p.id.rsplit('/').next().and_then(|i| i.parse::<u32>().ok()).is_some_and(|i| i < 60)) {
             for (file, data) in &p.files {
@@ -138,7 +139,7 @@ pub fn plan(projects: &[Project], opts: &Opts) -> Vec<Value> {
             }
         }
     }
-    let n_byte = if thorough { 400_000 } else { 90_000 };
+    let n_byte = if variant { if thorough { 60_000 } else { 15_000 } } else if thorough { 400_000 } else { 90_000 };
     for i in 0..n_byte {
         let mut rng = Rng::for_run(opts.seed, i as u64);
         let p = pick_project(projects, &mut rng);
@@ -162,7 +163,7 @@ pub fn plan(projects: &[Project], opts: &Opts) -> Vec<Value> {
         cases.push(json!({"kind": "read", "project": p.id, "faults": faults, "decoys": rng.chance(1, 2), "codegen": true}));
     }
     // ---- stream faults through the verif_de_locale seam
-    let n_stream = if thorough { 150_000 } else { 30_000 };
+    let n_stream = if variant { 0 } else if thorough { 150_000 } else { 30_000 };
     for i in 0..n_stream {
         let mut rng = Rng::for_run(opts.seed ^ 0x5712EA, i as u64);
         let p = pick_project(projects, &mut rng);
